@@ -13,7 +13,7 @@ print('extract', ok, log[-500:])
 lib, blog = C.build_lib()
 print('lib', lib, blog[-1500:] if lib is None else '')
 specs = []
-for f in sorted(glob.glob(os.path.join(HERE, 'props', 'c*.py'))):
+for f in sorted(glob.glob(os.path.join(HERE, 'props', 'c[0-9][0-9].py'))):
     specs.append(importlib.import_module('props.' + os.path.splitext(os.path.basename(f))[0]).SPEC)
 
 
